@@ -525,7 +525,7 @@ pub fn check(cfg: &RunCfg, _findings: &Findings) -> Report {
     cfg,
     "C06-product-sweep",
     16,
-    if quick { 10 } else { 300 },
+    if quick { 30 } else { 800 },
     48,
     160,
     150,
@@ -584,7 +584,7 @@ pub fn check(cfg: &RunCfg, _findings: &Findings) -> Report {
     cfg,
     "C06-catalogue-sweep",
     16,
-    if quick { 2 } else { 20 },
+    if quick { 4 } else { 40 },
     16,
     48,
     40,
@@ -622,7 +622,7 @@ pub fn check(cfg: &RunCfg, _findings: &Findings) -> Report {
     cfg,
     "C06-random",
     16,
-    if quick { 3_000 } else { 80_000 },
+    if quick { 20_000 } else { 200_000 },
     64,
     if quick { 220 } else { 460 },
     |src: &mut Src| gen_c06_case(src, quick),
